@@ -271,8 +271,6 @@ class Assembler:
                     absbits = b["addr"] * b["unit"] + cur[bank]
                     if absbits % la:
                         cur[bank] += la - absbits % la
-                if la and it[2] == 0 and k == "const":
-                    raise Unsupported("global constant inside a labelalign bank (known finding of C15)")
             self.layout[idx] = {"bank": bank, "pos": cur[bank], "size": 0}
             if k == "label":
                 full = ".".join(self.item_ctx[idx])
